@@ -54,3 +54,36 @@ def run(ctx):
     if bad:
         ctx.observe("BulkLoader::commit logs the manifest with page writes possibly unsynced (%s): power-loss durability only"
                     % [c.name.split("::")[-1] for c in bad])
+
+    # ---- clause 3: relationships are a multiset --------------------------------------------------
+    # Parallel relationships (same start, type and end) are distinct relationships.  The transactional path accumulates a run's edges
+    # in a Vec; a segment builder that routes them through a *set* keyed by (src, rel, dst) silently merges them.  Sets of edge keys are
+    # legitimate as filters (tombstones: only `contains` / `extend` / `insert`), never as the carrier that is iterated into the segment.
+    from ..facts import op_local
+    from ..mirutil import peel_refs
+    ctx.rule("C30.3", "no segment builder iterates a set of edge keys into a segment (parallel relationships must survive): edge-key sets are filters only")
+    BUILDERS = ["nervusdb_storage::bulkload::BulkLoader::build_segments", "nervusdb_storage::engine::build_segment_from_runs"]
+    ITER = ("iter", "into_iter", "drain", "len", "first", "last", "range")
+    n3 = 0
+    for fn in BUILDERS:
+        b = ctx.body(fn)
+        sets = [l for l in range(len(b.locals)) if ("BTreeSet<" in b.local_ty(l) or "HashSet<" in b.local_ty(l)) and "EdgeKey" in b.local_ty(l) and not b.local_ty(l).startswith("&")]
+        vecs = [l for l in range(len(b.locals)) if b.local_ty(l).startswith("alloc::vec::Vec<") and "EdgeKey" in b.local_ty(l)]
+        n3 += 1
+        bad = []
+        for c in b.calls():
+            if not c.args:
+                continue
+            l = op_local(c.args[0])
+            if l is None:
+                continue
+            r = peel_refs(b, l)
+            if r in sets and c.name.split("::")[-1] in ITER:
+                bad.append("%s at %s" % (c.name.split("::")[-1], c.loc()))
+            if r in vecs and c.name.split("::")[-1].startswith("dedup"):
+                bad.append("%s at %s" % (c.name.split("::")[-1], c.loc()))
+        ctx.instance("C30.3", "%s: edge-key sets=%d (iterated: %s), edge-key vectors=%d" % (fn.split("::")[-1], len(sets), bad or "no", len(vecs)))
+        ctx.oblige(not bad and bool(vecs), "C30.3", "%s:edges-through-a-set" % fn,
+                   "the segment's edges are carried in a set keyed by (src, rel, dst) (%s): parallel relationships collapse into one, while the "
+                   "transactional path keeps them" % (bad or "no edge vector at all"), b.file)
+    ctx.floor("C30.3", "segment builders", n3, 2)
